@@ -55,6 +55,16 @@ def register(claim):
           "'parse error => non-zero exit and no output files'.",
           "Partial: totality of the bison parser, scopes, template instantiation and back-ends is a search result, not a theorem (fourteen crashes/hangs found this way were repaired).",
           "Lean 4 proof (scanner safety, termination measure) + differential correspondence + fuzzing as search (labelled exploration)", "DESIGN.md §5 C15")
+    claim("C14",
+          "Lean 4 theorems for the two stages that consult the process environment: sorting the pointer-keyed overload set with RemapCompareLess yields "
+          "the same sequence for EVERY permutation of the set (c14_order_independent, via strict-weak-order lemmas c14_strict_weak and key injectivity "
+          "on signatures; the pre-fix comparator's order dependence is kept as a theorem), and the file identifier is independent of the clock whenever "
+          "SOURCE_DATE_EPOCH is non-empty, equals the clock otherwise, and SOURCE_DATE_EPOCH=0 means 0 (c14_id_*). The comparator's tie-break and the "
+          "shape of the SOURCE_DATE_EPOCH branch are re-extracted from the source on every run; fileId is tied to the real binary under an LD_PRELOAD "
+          "time() shim. Every generated library x back-end is rerun under differing ASLR, allocator tunables, environment size, locale/TZ, a "
+          "','-decimal-point shim and a shifted clock and the sha256 of code, database, text dump and interrogate_module output compared.",
+          "Partial: purity of the rest of the pipeline (no other address/uninitialised/locale/time dependence) is explored by those reruns, not proved.",
+          "Lean 4 proof (permutation invariance of the sort stage, identifier logic) + regenerated facts + differential reruns (exploration)", "DESIGN.md §5 C14")
     claim("C20",
           "Lean 4 theorems: guarded accessors return the neutral value off-range and the entry in range; every lookup answers from the current maps "
           "for every sequence of requests/lookups/queries (cache invariant by induction over operations) and is sound/absent/exact; the unique-name "
